@@ -148,6 +148,7 @@ class Ctx:
     def __init__(self):
         self.site = 0
         self.uid = 0
+        self.void = False      # inside a function without a return type: `return` carries no value
 
     def next_site(self):
         self.site += 1
@@ -187,6 +188,9 @@ def probe(ctx, counters):
 
 
 def block(ctx, item, counters, K, depth, can_return=True):
+    if item[0] == "return" and ctx.void and can_return:
+        # a value-less `return` is the last statement of its block: the grammar reads whatever follows it as its value
+        return [probe(ctx, counters)] + stmts(ctx, item, counters, K, depth, can_return)
     if item[0] == "store":
         # the store is the first statement of its block: no expression has used the block's temporaries yet
         return stmts(ctx, item, counters, K, depth, can_return) + [probe(ctx, counters)]
@@ -221,6 +225,8 @@ def stmts(ctx, s, counters, K, depth, can_return=True):
     if k == "return":
         if not can_return:
             return [("assign", "acc", ("bin", "+", var("acc"), ("int", 100)), None, ())]
+        if ctx.void:
+            return [("print", ("str", f"ret{ctx.next_site()}")), ("return", None)]
         return [("return", ("int", 1000 + ctx.next_site()))]
     if k == "fault":
         u = ctx.next_uid()
@@ -230,6 +236,8 @@ def stmts(ctx, s, counters, K, depth, can_return=True):
             return [("assign", f"z{u}", ("bin", "/", ("int", 10), ("bin", "-", var(K), ("int", 1))), None, ())]
         return [("assign", f"q{u}", ("index", var("lst"), var(K)), None, ())]
     if k == "seq":
+        if s[1][0] == "return" and ctx.void and can_return:
+            return stmts(ctx, s[1], counters, K, depth, can_return)      # nothing may follow a value-less return in its block
         return stmts(ctx, s[1], counters, K, depth, can_return) + [probe(ctx, counters)] + \
             stmts(ctx, s[2], counters, K, depth, can_return)
     if k == "if":
@@ -301,6 +309,21 @@ def function_program(shape, variant="fn"):
     variant: 'fn' (called with p = 0, 1, 2), 'module' (module level, p = 1), 'rec' (one level of recursion)."""
     variant = variant.split("~")[0]      # "fn~min": same program, rendered with minimal parentheses by the caller
     ctx = Ctx()
+    if variant in ("void", "voidlast"):
+        # a function without a return type; `voidlast`: the shape is the function's LAST statement (the body falls off its end)
+        ctx.void = True
+        pre = [("assign", "box", ("new", "Bx", [("int", 5)]), None, ()),
+               ("assign", "lst", ("list", [("int", 10), ("int", 20)]), "[int...]", ()),
+               ("assign", "acc", ("int", 0), None, ()), ("assign", "st", ("int", 1), None, ())]
+        pre += [("assign", c, ("int", 7), None, ()) for c in COLL]
+        inner = [probe(ctx, ["p", "acc"])] + stmts(ctx, shape, ["p", "acc"], "p", 0)
+        if variant == "void" and shape[0] != "return":
+            inner += [probe(ctx, ["p", "acc"]), ("print", ("bin", "+", ("str", "end "), var("acc")))]
+        f = ("assign", "f", ("fn", [("p", "int")], None, pre + inner), None, ())
+        calls = []
+        for pv in (0, 1, 2):
+            calls += [("expr", ("call", var("f"), [("int", pv)])), ("print", ("str", f"back {pv}"))]
+        return [BOX, HELPER_G, HELPER_BF, f] + calls
     pre = [("assign", "box", ("new", "Bx", [("int", 5)]), None, ()),
            ("assign", "lst", ("list", [("int", 10), ("int", 20)]), "[int...]", ()),
            ("assign", "acc", ("int", 0), None, ()), ("assign", "st", ("int", 1), None, ())]
